@@ -8,6 +8,7 @@ import (
 	"strings"
 
 	"github.com/gopher-fleece/gleece/v2/core/pipeline"
+	"github.com/gopher-fleece/gleece/v2/core/validators/diagnostics"
 	"github.com/gopher-fleece/gleece/v2/core/visitors"
 	"github.com/gopher-fleece/gleece/v2/definitions"
 	"github.com/gopher-fleece/gleece/v2/generator/swagen/swagen30"
@@ -629,3 +630,180 @@ func vh_C07_front_models_Q() {
 		}
 	}
 }
+
+// ---- C10 / C18 through the front end: perturbed projects, acceptance and diagnostics on real source positions
+
+type vhFrontPerturb struct {
+	indent, free, verb, lead, urlName, pathRef, query, qType, ret string
+}
+
+func vhFrontPerturbSource(p vhFrontPerturb) string {
+	doc := p.indent + "// " + p.free + "\n"
+	if p.verb != "" {
+		doc += p.indent + p.lead + "// @Method(" + p.verb + ")\n"
+	}
+	doc += p.indent + "// @Route(/r/{" + p.urlName + "})\n"
+	doc += p.indent + p.lead + "// @Path(" + p.pathRef + ")\n"
+	if p.query != "" {
+		doc += p.indent + "// @Query(" + p.query + ")\n"
+	}
+	doc += p.indent + "// @Body(b)\n"
+	ret := p.ret
+	body := "return nil"
+	switch p.ret {
+	case "(Model, error)":
+		body = "return Model{}, nil"
+	case "(Model, string)":
+		body = `return Model{}, ""`
+	case "":
+		body = "return"
+	}
+	return `package ctl
+
+import "github.com/gopher-fleece/runtime"
+
+type Model struct {
+	X string
+}
+
+// @Tag(T)
+// @Route(/c)
+type Ctl struct {
+	runtime.GleeceController
+}
+
+` + doc + p.indent + "func (c *Ctl) Op(id string, q " + p.qType + ", b Model) " + ret + " {\n\t" + body + "\n}\n"
+}
+
+func vhFlattenDiags(ds []diagnostics.EntityDiagnostic) []diagnostics.ResolvedDiagnostic {
+	var out []diagnostics.ResolvedDiagnostic
+	var walk func(e *diagnostics.EntityDiagnostic)
+	walk = func(e *diagnostics.EntityDiagnostic) {
+		out = append(out, e.Diagnostics...)
+		for _, c := range e.Children {
+			walk(c)
+		}
+	}
+	for i := range ds {
+		walk(&ds[i])
+	}
+	return out
+}
+
+func vhFrontPerturbation() (vhFrontPerturb, bool) {
+	p := vhFrontPerturb{
+		indent:      []string{"", "\t", "   "}[symxChoice("indent", 3)],
+		free:        []string{"Op does things", "Déjà vu: 10€ ∀x"}[symxChoice("free", 2)],
+		verb:        []string{"POST", "FOO", ""}[symxChoice("verb", 3)],
+		lead:        []string{"", "/* é€ */ "}[symxChoice("lead", 2)], // multibyte characters before the annotation, on its line
+		urlName:     []string{"id", "other"}[symxChoice("urlName", 2)],
+		pathRef:     []string{"id", "zz"}[symxChoice("pathRef", 2)],
+		query:       []string{"q", "", "zz"}[symxChoice("query", 3)],
+		qType:       []string{"int", "Model", "[]int"}[symxChoice("qType", 3)],
+		ret:         []string{"error", "(Model, error)", "(Model, string)", ""}[symxChoice("ret", 4)],
+	}
+	// a method without @Method is not an endpoint at all (C01): whatever else it carries is not looked at
+	valid := p.verb == "" || p.verb == "POST" && p.urlName == "id" && p.pathRef == "id" && p.query == "q" && p.qType != "Model" && (p.ret == "error" || p.ret == "(Model, error)")
+	return p, valid
+}
+
+func vhC10C18Front(checkDiagnostics bool) {
+	pert, valid := vhFrontPerturbation()
+	src := vhFrontPerturbSource(pert)
+	fr, err := visitors.VhLoadSource(src, nil)
+	symxAssert(err == nil, "C10.front.fixture-loads")
+	if err != nil {
+		return
+	}
+	p := pipeline.VhNewPipeline(fr, vhFrontConfig())
+	if !checkDiagnostics {
+		_, err = p.Run()
+		if valid {
+			symxCover("C10.front.well-formed")
+			symxAssert(err == nil, "C10.front.well-formed-route-is-never-rejected")
+		} else {
+			symxCover("C10.front.perturbed")
+			// recorded finding: an alias-less @Path(id) is not checked against the names of the URL template
+			symxKnownFor("C10-path-binding-without-url-name", "C10.front.inconsistent-route-is-rejected", pert.pathRef == "id" && pert.urlName != "id")
+			symxAssert(err != nil, "C10.front.inconsistent-route-is-rejected")
+		}
+		return
+	}
+	if p.GenerateGraph() != nil {
+		symxCover("C18.front.visit-refused")
+		return
+	}
+	tree, err := p.Validate()
+	symxAssert(err == nil, "C18.front.validation-runs")
+	if err != nil {
+		return
+	}
+	diags := vhFlattenDiags(tree)
+	// the order of diagnostics is not part of the contract (some come out of map iterations): canonical order
+	for i := 1; i < len(diags); i++ {
+		for j := i; j > 0 && vhDiagLess(diags[j], diags[j-1]); j-- {
+			diags[j], diags[j-1] = diags[j-1], diags[j]
+		}
+	}
+	lines := strings.Split(src, "\n")
+	if len(diags) == 0 {
+		symxCover("C18.front.no-diagnostics")
+	}
+	for i, d := range diags {
+		symxCover("C18.front.diagnostic")
+		symxAssert(d.FilePath == fr.Path, "C18.front.names-the-file-of-the-offending-method")
+		symxAssert(d.Severity == diagnostics.DiagnosticError, "C18.front.rule-violations-are-errors")
+		r := d.Range
+		// recorded finding: a comment's start column is a byte column (go/token) while offsets inside the comment are
+		// counted in characters, so characters of more than one byte before the comment on its line shift the range
+		onLeadLine := pert.lead != "" && r.StartLine >= 0 && r.StartLine < len(lines) && strings.Contains(lines[r.StartLine], pert.lead)
+		symxKnownFor("C18-byte-column-of-comment-start", "C18.front.range-lies-inside-the-file", onLeadLine)
+		symxKnownFor("C18-byte-column-of-comment-start", "C18.front.covers-text-equal-to-the-value", onLeadLine)
+		inside := r.StartLine >= 0 && r.EndLine < len(lines) && r.StartLine <= r.EndLine && r.StartCol >= 0 && r.EndCol >= 0
+		if inside {
+			inside = r.StartCol <= len([]rune(lines[r.StartLine])) && r.EndCol <= len([]rune(lines[r.EndLine]))
+		}
+		symxAssert(inside, "C18.front.range-lies-inside-the-file")
+		symxAssert(r.StartLine < r.EndLine || (r.StartLine == r.EndLine && r.StartCol <= r.EndCol), "C18.front.start-not-after-end")
+		covered := ""
+		if inside && r.StartLine == r.EndLine && r.StartCol <= r.EndCol {
+			covered = string([]rune(lines[r.StartLine])[r.StartCol:r.EndCol])
+		}
+		symxRecord("diag", d.Code, r.StartLine, r.StartCol, r.EndLine, r.EndCol)
+		switch diagnostics.DiagnosticCode(d.Code) {
+		case diagnostics.DiagAnnotationValueInvalid:
+			symxCover("C18.front.value-diagnostic")
+			symxAssert(covered == pert.verb, "C18.front.covers-text-equal-to-the-value")
+		case diagnostics.DiagLinkerPathInvalidRef:
+			symxCover("C18.front.value-diagnostic")
+			symxAssert(covered == "zz", "C18.front.covers-text-equal-to-the-value")
+		case diagnostics.DiagLinkerRouteMissingPath:
+			symxAssert(covered == "{"+pert.urlName+"}", "C18.front.covers-the-url-parameter")
+		case diagnostics.DiagLinkerUnreferencedParameter:
+			symxAssert(strings.HasPrefix(covered, "id ") || strings.HasPrefix(covered, "q ") || strings.HasPrefix(covered, "b "), "C18.front.covers-the-parameter-declaration")
+		case diagnostics.DiagReceiverParamNotPrimitive:
+			symxAssert(covered == "q "+pert.qType, "C18.front.covers-the-parameter-declaration")
+		case diagnostics.DiagReceiverRetValsIsNotError, diagnostics.DiagReceiverRetValsInvalidSignature:
+			symxAssert(inside && strings.Contains(lines[r.StartLine], "func (c *Ctl) Op("), "C18.front.return-diagnostic-starts-on-the-declaration-line")
+		}
+		for j := 0; j < i; j++ {
+			symxAssert(!(diags[j].Code == d.Code && diags[j].Range == d.Range && diags[j].Message == d.Message), "C18.front.no-diagnostic-twice")
+		}
+	}
+}
+
+func vhDiagLess(a, b diagnostics.ResolvedDiagnostic) bool {
+	if a.Range.StartLine != b.Range.StartLine {
+		return a.Range.StartLine < b.Range.StartLine
+	}
+	if a.Range.StartCol != b.Range.StartCol {
+		return a.Range.StartCol < b.Range.StartCol
+	}
+	if a.Code != b.Code {
+		return a.Code < b.Code
+	}
+	return a.Message < b.Message
+}
+
+func vh_C10_front_accept_Q()      { vhC10C18Front(false) }
+func vh_C18_front_diagnostics_Q() { vhC10C18Front(true) }
